@@ -50,8 +50,10 @@ def payload(rng, kind, dialect):
             for _ in range(rng.choice([1, 1, 2])):
                 atoms.insert(rng.randrange(len(atoms) + 1), rng.choice(ESCAPES[kind]))
         p = "".join(atoms)
-        if kind == "name" and (p.strip() != p or p == "" or p.lower() in ("a", "b", "c", "d", "t", "u", "x", "y", "f")):
+        if kind == "name" and (p.strip() == "" or p.strip().lower() in ("a", "b", "c", "d", "t", "u", "x", "y", "f")):
             continue                                   # a name is compared after the enclosing back-quotes are stripped
+        if kind == "name" and rng.random() < 0.15:
+            p = rng.choice([" ", "  ", ""]) + p + rng.choice([" ", "", "  "])   # blanks at the edges belong to the name as well
         if dialect == "HIVE" and "==" in p:
             continue                                   # K-PREPASS-QUOTE
         if dialect == "DB2" and re.search(r"CURRENT (DATE|TIME)", p):
